@@ -176,7 +176,10 @@ pub fn enc(rec: &mut Recorder, rng: &mut Rng, thorough: bool) {
                 .collect::<Vec<_>>()
                 .join(",")
         });
-        rec.put(&format!("enc {t} {nn} {al} {} {}", hex(&data), list(&esis)), &r.unwrap_or("err".into()));
+        let ans = r.unwrap_or("err".into());
+        rec.put(&format!("enc {t} {nn} {al} {} {}", hex(&data), list(&esis)), &ans);
+        let be = if rq::extended_source_block_symbols(k) >= rq::SPARSE_MATRIX_THRESHOLD { "sparse" } else { "dense" };
+        rec.put(&format!("encpi {be} {t} {nn} {al} {} {}", hex(&data), list(&esis)), &ans);
         rec.count(if big { "enc_big" } else { "enc" });
         rec.count(&format!("enc_T_mod8_{}", t % 8));
     }
@@ -476,6 +479,7 @@ pub fn decblk(rec: &mut Recorder, rng: &mut Rng, thorough: bool) {
                 rec.count(if outs.last().map_or(false, |o| o.is_some()) { "decblk_final_some" } else { "decblk_final_none" });
                 rec.count(&format!("decblk_overhead_{}", h.min(3)));
                 rec.put(&req, &outs.iter().map(res_str).collect::<Vec<_>>().join(" "));
+                rec.put(&req.replacen("decblk ", &format!("decblkpi {} ", if sparse { "sparse" } else { "dense" }), 1), &outs.iter().map(res_str).collect::<Vec<_>>().join(" "));
             }
             Err(_) => {
                 rec.impl_violation(format!("block decoder panics on genuine packets K={k} T={t} N={nn} Al={al} sparse={sparse}"));
@@ -1060,6 +1064,7 @@ pub fn fastpath(rec: &mut Recorder, rng: &mut Rng, thorough: bool) {
                 for o in stream { match o { Some(b) if *b != data => rec.impl_violation(format!("wrong bytes K={k}")), Some(_) => seen = true, None if seen => rec.impl_violation(format!("block decoder gives up after having answered: K={k} T={t}, binary-deficient set avoiding column {col} ({} symbols)", pk.len())), None => {} } }
                 rec.put(&req_stream, &stream.iter().map(res_str).collect::<Vec<_>>().join(" "));
                 rec.put(&req_bulk, &res_str(&bulk[0]));
+                rec.put(&req_bulk.replacen("decblk ", &format!("decblkpi {} ", if sparse { "sparse" } else { "dense" }), 1), &res_str(&bulk[0]));
                 rec.put(&format!("deccase {k} {t} {}", req_bulk.rsplit(' ').next().unwrap()), if bulk[0].is_some() { "Rq.DecCase.c3b" } else { "Rq.DecCase.c3fail" });
                 rec.count(if bulk[0].is_some() { "fastpath_full_solve_succeeds" } else { "fastpath_both_fail" });
             }
